@@ -162,6 +162,13 @@ impl Bloom {
     }
 }
 
+#[cfg(transparencies_stretto_verif)]
+impl Bloom {
+    pub(crate) fn verif_params(&self) -> (u64, u64) {
+        (self.size + 1, self.set_locs)
+    }
+}
+
 #[cfg(test)]
 mod test {
     use crate::bbloom::Bloom;
